@@ -24,19 +24,25 @@ Record st := mkSt {
   disposed : bool;
   queue : list resp;      (* sendQueue *)
   sent : list resp;       (* what strm.Send has been called with *)
-  result : nat            (* 0 running, 1 returned resErr, 2 returned "directive disposed" *)
+  result : nat;           (* 0 running, 1 returned resErr, 2 returned "directive disposed" *)
+  woken : bool            (* the wait channel the send loop holds has been closed by a broadcast() *)
 }.
 
-Definition init : st := mkSt [] false false false [] [] 0%nat.
+Definition init : st := mkSt [] false false false [] [] 0%nat false.
 
 Definition memz (id : Z) (l : list Z) : bool := existsb (Z.eqb id) l.
 Definition delz (id : Z) (l : list Z) : list Z := filter (fun x => negb (Z.eqb id x)) l.
 
-Definition set_vals (s : st) v := mkSt v (idle s) (res_err s) (disposed s) (queue s) (sent s) (result s).
+Definition set_vals (s : st) v := mkSt v (idle s) (res_err s) (disposed s) (queue s) (sent s) (result s) (woken s).
+(* append to sendQueue and broadcast(); nothing queued = no broadcast *)
 Definition enq (s : st) (r : list resp) :=
-  mkSt (vals s) (idle s) (res_err s) (disposed s) (queue s ++ r) (sent s) (result s).
+  mkSt (vals s) (idle s) (res_err s) (disposed s) (queue s ++ r) (sent s) (result s)
+       (match r with [] => woken s | _ => true end).
 
-(* step returns the new state and the responses appended to sendQueue by this region *)
+(* step returns the new state and the responses appended to sendQueue by this region.
+   The send loop only runs a Drain region after its wait channel was closed (woken); in the
+   same region it takes the NEW wait channel (woken := false) and snapshots+clears the queue.
+   Taking the channel in a later region would be a different transition system (lost wakeups). *)
 Definition step (s : st) (a : action) : st * list resp :=
   match result s with
   | S _ => (s, [])        (* the call has returned: callbacks are released *)
@@ -44,7 +50,7 @@ Definition step (s : st) (a : action) : st * list resp :=
   match a with
   | Add id ok =>
       if negb ok then (s, []) else
-      (* vals[id] = struct{}{}; if len(vals) == 1 { queue Exists } *)
+      (* vals[id] = struct{}{}; if len(vals) == 1 { queue Exists; broadcast } *)
       let v := if memz id (vals s) then vals s else id :: vals s in
       let out := if Nat.eqb (length v) 1 then [RExists] else [] in
       (enq (set_vals s v) out, out)
@@ -54,20 +60,24 @@ Definition step (s : st) (a : action) : st * list resp :=
       let out := if Nat.eqb (length v) 0 then [RRemoved] else [] in
       (enq (set_vals s v) out, out)
   | IdleCb b e =>
+      (* resErr set for the first time: broadcast *)
       let s1 := if negb (res_err s) && e
-                then mkSt (vals s) (idle s) true (disposed s) (queue s) (sent s) (result s) else s in
+                then mkSt (vals s) (idle s) true (disposed s) (queue s) (sent s) (result s) true else s in
       if Bool.eqb b (idle s1) then (s1, []) else
-      let s2 := mkSt (vals s1) b (res_err s1) (disposed s1) (queue s1) (sent s1) (result s1) in
+      let s2 := mkSt (vals s1) b (res_err s1) (disposed s1) (queue s1) (sent s1) (result s1) (woken s1) in
       (enq s2 [RIdle b], [RIdle b])
   | Dispose =>
-      (mkSt (vals s) (idle s) (res_err s) true (queue s) (sent s) (result s), [])
+      if disposed s then (s, []) else
+      (mkSt (vals s) (idle s) (res_err s) true (queue s) (sent s) (result s) true, [])
   | Drain =>
-      (* currSendQueue = sendQueue; sendQueue = nil; if currIdle && currResErr != nil return it *)
+      if negb (woken s) then (s, []) else    (* parked on an open wait channel *)
+      (* waitCh = getWaitCh(); currSendQueue = sendQueue; sendQueue = nil;
+         if currIdle && currResErr != nil return it; send; if disposed return *)
       if idle s && res_err s then
-        (mkSt (vals s) (idle s) (res_err s) (disposed s) [] (sent s) 1%nat, [])
+        (mkSt (vals s) (idle s) (res_err s) (disposed s) [] (sent s) 1%nat false, [])
       else
         let s1 := mkSt (vals s) (idle s) (res_err s) (disposed s) [] (sent s ++ queue s)
-                       (if disposed s then 2%nat else 0%nat) in
+                       (if disposed s then 2%nat else 0%nat) false in
         (s1, [])
   end
   end.
@@ -109,6 +119,20 @@ Fixpoint idle_proj (l : list resp) : list bool :=
   | [] => []
   | RIdle b :: r => b :: idle_proj r
   | _ :: r => idle_proj r
+  end.
+(* the availability / idle state a reader of the stream currently believes, starting from d *)
+Fixpoint last_er (d : bool) (l : list resp) : bool :=
+  match l with
+  | [] => d
+  | RExists :: r => last_er true r
+  | RRemoved :: r => last_er false r
+  | RIdle _ :: r => last_er d r
+  end.
+Fixpoint last_idle (d : bool) (l : list resp) : bool :=
+  match l with
+  | [] => d
+  | RIdle b :: r => last_idle b r
+  | _ :: r => last_idle d r
   end.
 (* alternating sequence whose first element (if any) is e *)
 Fixpoint alt (e : bool) (l : list bool) : Prop :=
